@@ -285,6 +285,22 @@ def uintLit (value : Nat) : BV4 :=
   let width := if (value + 1) % 2^64 = 0 then 64 else log2C (value + 1)
   ofNat width value
 
+/-! ## conditional assignment (`IF (c) x = a;`, `ConditionalScope`, `BitVector.cpp:404-431`) -/
+
+/-- `IF (cond) x = new;` outside any other scope: a 2-input multiplexer `[cond, old, new]` -/
+def ifAssign (cond old new : BV4) : BV4 := node .mux new.length [cond, old, new]
+
+/-- `x = d; IF (sel == k₁) x = a₁; IF (sel == k₂) x = a₂; …` — every condition is a compare node of the selector with the
+    integer literal (`UInt(k)`, policy zero) -/
+def ifChain (selPol : Pol) (sel d : BV4) (steps : List (Nat × BV4)) : FE BV4 :=
+  steps.foldlM (fun x (ka : Nat × BV4) => do
+    let c ← compare .EQ .bitvec selPol .zero sel (uintLit ka.1)
+    pure (ifAssign c x ka.2)) d
+
+/-- `x = d; IF (c₁) x = a₁; IF (c₂) x = a₂; …` — later conditions override earlier ones -/
+def ifPrio (d : BV4) (steps : List (BV4 × BV4)) : BV4 :=
+  steps.foldl (fun x (ca : BV4 × BV4) => ifAssign ca.1 x ca.2) d
+
 /-- digit of a base-`2^bps` literal: `(value, defined)`; any character outside `0-9a-fA-F` (the grammar only allows `x`/`X`
     besides the digits) clears DEFINED (`BitVectorState.cpp:199-215`) -/
 def litDigit (bps : Nat) (c : Char) : BV4 :=
